@@ -24,7 +24,7 @@ def oracle(req, steps, obs, m=None):
         used, per_ins = obs[k], obs[k + 1]
         k += 2
         mentioned = [q for qs in per_ins for q in qs]
-        req("used-qubits", f"after:{name}", set_eq(used, mentioned, m))
+        req("used-qubits", f"after:{i}:{name}", set_eq(used, mentioned, m))
     eq_pr, l_p, l_r = obs[k], obs[k + 1], obs[k + 2]
     same = len(l_p) == len(l_r) and and_all(tree_eq(x, y, m) for x, y in zip(l_p, l_r))
     req("rebuild-listing-equal", "", same)
@@ -109,8 +109,7 @@ class C10(Check):
         steps = ["build"] + case["ops"]
         first = next(((k, d) for k, d in col.failed if k == "used-qubits"), None)
         if first is not None:
-            i = steps.index(first[1][6:]) if first[1][6:] in steps else 0
-            i = next(j for j, nm in enumerate(steps) if ("used-qubits", f"after:{nm}") in col.failed)
+            i = next(j for j, nm in enumerate(steps) if ("used-qubits", f"after:{j}:{nm}") in col.failed)
             k = 2 * i + sum(1 for nm in steps[:i + 1] if nm in STATUS_OPS)
             used, per_ins = obs[k], obs[k + 1]
             mentioned = [q for qs in per_ins for q in qs]
